@@ -53,6 +53,11 @@ def run_one(m):
         r = subprocess.run([os.path.join(VERIF, 'check'), m['property'], '--root', d, '--tier', 'quick'],
                            capture_output=True, text=True, env=env)
         out = r.stdout + r.stderr
+        if m.get('expect') == 'known-miss':
+            # a change outside what these rules can decide (documented in DESIGN.md): recorded, not required
+            if r.returncode == 1:
+                return m, 'killed', 'caught (was recorded as a known miss)'
+            return m, 'skipped', 'known miss: ' + m.get('why', '')
         if m.get('expect') == 'pass':
             # behaviour-preserving variant: the check must stay silent
             if r.returncode == 0:
